@@ -42,6 +42,12 @@ class Context:
 
         return self.memo("escape", lambda: Escape(self.prog, self.callgraph))
 
+    @property
+    def prov(self) -> T.Any:
+        from .prov import Prov
+
+        return self.memo("prov", lambda: Prov(self))
+
     def cfg(self, func: T.Any) -> T.Any:
         from .cfg import build_cfg
 
